@@ -151,6 +151,8 @@ def _mk_ola(rng, size, hop, m, normalize, wkind, num, size_given=True, hop_given
     c = {"entry": "ola", "blks": blks, "size": size if size_given else None,
          "hop": hop if hop_given else None, "wnd": wnd, "normalize": normalize,
          "wkind": wkind, "num": num, "route": route}
+    if normalize and rng.random() < 0.5:
+        c["normalize_given"] = False          # rely on the default normalize=True
     c["regime"] = _regime(c)
     return c
 
@@ -675,7 +677,7 @@ def impl(c):
     if c["entry"] == "ola":
         out, err = [], None
         try:
-            kw = {"normalize": c["normalize"]}
+            kw = {"normalize": c["normalize"]} if c.get("normalize_given", True) else {}
             if c["size"] is not None:
                 kw["size"] = c["size"]
             if c["hop"] is not None:
@@ -718,7 +720,7 @@ def impl(c):
 
 def request(c):
     r = dict(c)
-    for k in ("wkind", "num", "route", "regime", "kind"):
+    for k in ("wkind", "num", "route", "regime", "kind", "normalize_given"):
         r.pop(k, None)
     if c["entry"] == "stft":
         r.pop("style", None)
@@ -902,7 +904,7 @@ def tally(eng, c, io):
                "hop|size" if size % hop == 0 else "hop<size")
         eng.count("hop_vs_size", rel)
     eng.count("window_kind", c["wkind"])
-    eng.count("normalize", c["normalize"])
+    eng.count("normalize", str(c["normalize"]) + ("" if c.get("normalize_given", True) else " (default)"))
     eng.count("size_detected", c["size"] is None)
     eng.count("hop_defaulted", c["hop"] is None)
     eng.count("regime", c.get("regime"))
